@@ -9,7 +9,7 @@ CONSTANTS
   MaxFields = 3
   RichFields = 3
   EnumRichFields = 2
-  RankSet <- RanksThorough
+  RankSet <- RanksQuick
   EnumRankSet = {2}
   SimpleStyles = {"unit", "tuple", "named"}
   MaxLawValues = 8
